@@ -47,9 +47,17 @@ pub enum FormatEnum {
     Long12,
     #[scpi(mnemonic = b"UINTeger")]
     Uint(u8),
+    #[scpi(mnemonic = b"P6V")]
+    P6v,
+    #[scpi(mnemonic = b"P25V")]
+    P25v,
+    #[scpi(mnemonic = b"N25Volt")]
+    N25v,
+    #[scpi(mnemonic = b"CH1A2")]
+    Ch1a2,
 }
 
-const FORMAT_ENUM: [FormatEnum; 9] = [
+const FORMAT_ENUM: [FormatEnum; 13] = [
     FormatEnum::Binary,
     FormatEnum::Real,
     FormatEnum::Ascii1,
@@ -59,6 +67,10 @@ const FORMAT_ENUM: [FormatEnum; 9] = [
     FormatEnum::X,
     FormatEnum::Long12,
     FormatEnum::Uint(0),
+    FormatEnum::P6v,
+    FormatEnum::P25v,
+    FormatEnum::N25v,
+    FormatEnum::Ch1a2,
 ];
 
 #[derive(Clone, Debug, Serialize, Deserialize, Hash)]
@@ -616,6 +628,7 @@ fn ascii_string() -> impl Strategy<Value = Vec<u8>> {
         3 => "[a-z\"',;:() #\\n]{0,24}".prop_map(String::into_bytes),
         1 => Just(b"\"".to_vec()),
         1 => Just(b"\"\"".to_vec()),
+        2 => (56usize..300, proptest::collection::vec(0usize..300, 0..5)).prop_map(|(n, qs)| { let mut v = vec![b'a'; n]; for q in qs { if q < n { v[q] = b'"'; } } v }),
         1 => proptest::collection::vec(any::<u8>(), 1..10),
     ]
 }
@@ -664,7 +677,7 @@ fn case_strategy() -> impl Strategy<Value = Case> {
         8 => (any::<bool>(), elem_list()).prop_map(|(array, items)| Case::List { array, items }),
         6 => (any::<i16>(), text7(), proptest::option::of(text7())).prop_map(|(code, msg, ext)| Case::CustomError { code, msg, ext }),
         2 => ((-899i16..=0), text7()).prop_map(|(code, ext)| Case::StdErrorExt { code, ext }),
-        2 => (0u8..9).prop_map(Case::Enum),
+        2 => (0u8..13).prop_map(Case::Enum),
         3 => (any::<bool>(), f64_bits(), any::<u8>()).prop_map(|(single, bits, which)| Case::Quantity { single, bits: if single { (f64::from_bits(bits) as f32).to_bits() as u64 } else { bits }, which }),
         1 => (0u8..4).prop_map(Case::Misc),
     ]
